@@ -108,6 +108,14 @@ def run_check(prop, repo):
                 classes.append(json.load(open(m.group(2)))["violation_class"])
             except Exception:
                 classes.append("?")
+    hits = {}
+    try:
+        ev = json.load(open(os.path.join(VERIF, "build", "evidence-alt", prop + ".json")))
+        hits = ev["coverage"].get("per_class_run_counts", {})
+        hits["_runs"] = ev["coverage"].get("runs")
+    except Exception:
+        pass
+    run_check.last_hits = hits
     return p.returncode, classes, p.stdout[-2000:] + p.stderr[-2000:]
 
 
@@ -197,7 +205,10 @@ def seeded(args):
                 res = "QUIET(as documented)" if code == 0 else "exit %d" % code
             if (code == 1) != expected_caught:
                 rc = 1
+            hits = dict(getattr(run_check, "last_hits", {}))
+            total_runs = hits.pop("_runs", None)
             rows.append({"id": sid, "property": meta["property"], "exit": code, "classes": classes[:6], "result": res, "wall_s": round(time.time() - t0, 1),
+                         "violating_runs_by_class": dict(sorted(hits.items(), key=lambda kv: -kv[1])[:6]), "runs": total_runs,
                          "tail": tail[-400:] if code not in (0, 1) else ""})
             print("%-30s %-12s exit=%d %s" % (sid, res, code, classes[:3]))
             sys.stdout.flush()
